@@ -111,6 +111,12 @@ type prog struct {
 	appended     bool
 	consumed     bool
 	everRead     bool
+	heldStr      []heldString // strings returned by String() earlier, with a private copy
+}
+
+type heldString struct {
+	s, clone string
+	at       int
 }
 
 // programCase runs one differential program of the given profile.
@@ -299,6 +305,10 @@ func (p *prog) gen() *step {
 		st.run = func(b buffer) (string, []byte) { return "err=" + errText(b.UnreadRune()), nil }
 	case opNext:
 		n := p.g.readSize(L)
+		if r.Intn(12) == 0 {
+			// "take the rest" idioms: n far beyond Len must clamp, not overflow
+			n = []int{math.MaxInt, math.MaxInt - 1, math.MaxInt - L, math.MaxInt / 2, math.MaxInt32}[r.Intn(5)]
+		}
 		if invalid {
 			n = []int{-1, -1, -2, -1 - r.Intn(1000), math.MinInt64}[r.Intn(5)]
 			st.invalid = true
@@ -566,6 +576,18 @@ func (p *prog) compareState(i int, desc string) bool {
 	if ts != ss || ts != string(tb) {
 		k.Fail("state-mismatch:"+name, "after step %d %s: String() differs: tex.Buffer %s ; bytes.Buffer %s", i, desc, fmtBytes([]byte(ts)), fmtBytes([]byte(ss)))
 		return false
+	}
+	// a string returned by String() is an immutable value: strings handed out earlier must still
+	// read what they read then, whatever happened to the buffer since (bytes.Buffer copies)
+	for _, h := range p.heldStr {
+		k.Count("retained_strings_checked", 1)
+		if h.s != h.clone {
+			k.Fail("retained-string-changed", "after step %d %s: the string returned by String() after step %d read %s then and reads %s now", i, desc, h.at, fmtBytes([]byte(h.clone)), fmtBytes([]byte(h.s)))
+			return false
+		}
+	}
+	if len(ts) > 0 && len(p.heldStr) < 4 && (i < 0 || i%3 == 0) {
+		p.heldStr = append(p.heldStr, heldString{s: ts, clone: string(append([]byte(nil), ts...)), at: i})
 	}
 	k.C.Max("unread_len", int64(tl))
 	return true
